@@ -103,7 +103,7 @@ pub(crate) fn stub_push_front_record<T>(this: &mut Deque, _buf: &mut Buffer<T>, 
     match &f {
         crate::frame::Frame::Data(d) => {
             assert!(d.payload().off == off && d.payload().rem == rem && d.is_end_stream() == eos,
-                "C01.order: the frame put back is not the frame that was taken (bytes or END_STREAM changed)");
+                "C01.order/C01.reclaim: the frame put back at the front is not the expected unsent remainder (bytes or END_STREAM changed)");
         }
         _ => panic!("C01.order: something other than the blocked DATA frame was put back"),
     }
